@@ -1,4 +1,6 @@
 """C02 -- re-encoding parsed data is canonical and stable."""
+import ast
+
 from .. import norm as N
 from .common import *
 from . import C13
@@ -131,7 +133,28 @@ def run(ctx):
         fi, paths = method_paths(ctx, cls, "_encode")        # (own or inherited: HexDump may be written as a subclass of Hex)
         ctx.ob("C02.R1", fi, len(paths) == 1 and paths[0].retval == OBJ, "%s._encode is the identity" % cls, key="%s encode" % cls)
     position_adapters(ctx, "C02.R1")
-    ctx.floor("C02.R1", 12)
+    # MS-DOS timestamps: the record _encode builds carries, per field, the calendar component _decode shifts by for that field
+    # (reference: time.struct_time -- tm_year, tm_mon, tm_mday, tm_hour, tm_min, tm_sec; tm_yday / tm_wday are not calendar fields of a date)
+    ref = {"year": "tm_year", "month": "tm_mon", "day": "tm_mday", "hour": "tm_hour", "minute": "tm_min", "second": "tm_sec"}
+    enc = [f for f in M.all_functions() if f.qual.endswith("MsdosTimestampAdapter._encode")]
+    dec = [f for f in M.all_functions() if f.qual.endswith("MsdosTimestampAdapter._decode")]
+    if not enc or not dec:
+        ctx.error("C02.R1: anchor vanished: Timestamp's MsdosTimestampAdapter._encode/_decode")
+    else:
+        got = {}
+        for n in ast.walk(enc[0].node):
+            if isinstance(n, ast.Call) and isinstance(n.func, ast.Name) and n.func.id == "Container":
+                for k in n.keywords:
+                    got[k.arg] = sorted({x.attr for x in ast.walk(k.value) if isinstance(x, ast.Attribute) and x.attr.startswith("tm_")})
+        ctx.ob("C02.R1", enc[0], got == {k: [v] for k, v in ref.items()}, "MsdosTimestampAdapter._encode fills each field from the matching struct_time component (%s)" % got, key="msdos encode fields")
+        used = {}
+        for n in ast.walk(dec[0].node):
+            if isinstance(n, ast.Call) and isinstance(n.func, ast.Attribute) and n.func.attr == "shift":
+                for k in n.keywords:
+                    used[k.arg] = sorted({x.attr for x in ast.walk(k.value) if isinstance(x, ast.Attribute)})
+        want = {"years": ["year"], "months": ["month"], "days": ["day"], "hours": ["hour"], "minutes": ["minute"], "seconds": ["second"]}
+        ctx.ob("C02.R1", dec[0], used == want, "MsdosTimestampAdapter._decode shifts each calendar unit by the field of the same name (%s)" % used, key="msdos decode fields")
+    ctx.floor("C02.R1", 14)
 
     # ---------------------------------------------------------------- R2
     n = 0
@@ -233,8 +256,10 @@ def run(ctx):
     # _parse and _build agree class by class (shared with C01.R2/R3), and the bit-level stream closes under the same conditions on both sides (C10.R4)
     # ... an alternative / element that fails while building leaves no bytes behind (C09.R3/R4: the rebuilt bytes would not re-parse to the value),
     # and build sets up the same nested scope as parse, so that what parse returned (Index values, computed members) can be built again (C07.R1)
-    from . import C01, C10, C09, C07
-    for mod, rules in ((C01, ("C01.R2", "C01.R3")), (C10, ("C10.R4",)), (C09, ("C09.R3", "C09.R4")), (C07, ("C07.R1",))):
+    # ... what a delimiter's parse leaves in the stream is what its build put there (terminator rules of NullTerminated, C08.R2), and a record
+    # RawCopy parsed is re-encoded from its raw `data` before its `value` (C14.R2), so that the rebuilt bytes are the parsed ones
+    from . import C01, C10, C09, C07, C08, C14
+    for mod, rules in ((C01, ("C01.R2", "C01.R3")), (C10, ("C10.R4",)), (C09, ("C09.R3", "C09.R4")), (C07, ("C07.R1",)), (C08, ("C08.R2",)), (C14, ("C14.R2",))):
         sub = _Ctx(mod.__name__.split(".")[-1], ctx.tier, ctx.root, model=ctx.model)
         sub._summ = summariser(ctx)
         mod.run(sub)
